@@ -42,6 +42,61 @@ CLAIMED = {
               "the property's own coherence conditions are evaluated on the implementation through its public API."),
         note="post-hoc mutation of stored column objects is outside the property; object identity is modelled by an oid field",
         design="§6 C15"),
+    "C03": dict(
+        technique="Lean 4 proof (mode factorisation of the modelled entry points) + three-mode differential runs + relation oracle",
+        text=("The model threads the stringency exactly where the code does; theorems (record parsing: C01Record.strict/modes_agree; header: C13.mode_*; reader/validation: Props/C03 when present) "
+              "state that Silent and Lenient return the same value and error list, Lenient logs one warning per error, Silent none, and Strict fails with the first collected error or returns the Silent result. "
+              "Every generated input is run in the three modes on the implementation and the three relations are evaluated on its own results at five entry points."),
+        note="log records are observed through a handler on the 'maflib' logger tree; writer/validation entry points are implementation-side only until Props/C03 lands",
+        design="§6 C03"),
+    "C07": dict(
+        technique="Lean 4 proof (k-way merge of sorted chunks is a sorted permutation; key canonicity) + differential correspondence + direct sortedness/permutation oracle",
+        text=("Theorems over the sorter model for every strict-weak key order, capacity >= 1, policy and input: output is a permutation, non-decreasing, its key sequence is independent of capacity / policy / insertion order, "
+              "chunk bookkeeping invariants. Tied by running the real Sorter/MafSorter for every capacity 1..n+1, both policies, shuffled insertions, falsy keys and items, three codec configurations."),
+        note="heapq/gzip/struct/tempfile are modelled (first-minimal choice; outputs compared as key sequences + multisets)",
+        design="§6 C07"),
+    "C09": dict(
+        technique="Lean 4 proof (order checker = longest non-descending prefix) + differential correspondence through the reader + descent-position oracle",
+        text=("Theorems: iterating through the checker yields everything iff keys are non-decreasing, otherwise exactly the prefix before the first descent and ValueError; non-sortable orders never reject; "
+              "records that cannot be keyed are skipped. Tied by reading generated files (typed and scheme-less, contigs absent/lexical/karyotypic) with the first descent at every position."),
+        note="the documented key order used by the oracle is written directly in Python (C08's expected_cmp)",
+        design="§6 C09"),
+    "C10": dict(
+        technique="Lean 4 proof (composition: sorter output is accepted by the order checker for the same order/contigs) + writer/reader differential runs",
+        text=("Theorem C10.own_reader_accepts composes C07 (sorted permutation) with C09 (checker accepts sorted input) over keys built by one (order, contigs); the writer model is tied to MafWriter by comparing "
+              "the bytes on the handle after every call; the oracle re-reads each produced file with the library's reader and checks the documented order for every permutation of small multisets."),
+        note="single sorted run (n < 10000); the codec round trip is C04's theorem; gzip/handles observed",
+        design="§6 C10"),
+    "C11": dict(
+        technique="Lean 4 proof (loop invariant of the overlap sweep: partition, soundness, completeness, order) + differential correspondence + connected-components oracle",
+        text=("Theorems over the literal model of the iterator loop under sorted inputs and closed intervals: slots concatenate to the inputs, groups are non-empty, two records share a group iff a chain of overlaps links them, "
+              "groups are emitted in key order. Tied by comparing group structure on random and (thorough) exhaustive small configurations; the oracle computes connected components of the overlap graph."),
+        note="the enforcing/peekable wrappers are observed (out-of-order inputs must raise), not modelled in Lean",
+        design="§6 C11"),
+    "C12": dict(
+        technique="Lean 4 proof (first-input partition and exact filtering) + differential correspondence + direct specification oracle",
+        text=("Theorems: the first slot is partitioned into compatibility subgroups (order preserved, each later member matches an earlier one, a new subgroup only when none matches), other slots are exactly the filter of the "
+              "positional slot by the emitted subgroup, and the three relations meet their documentation. Tied on C11's configurations with varied ref/alt alleles."),
+        note="positional groups come from C11",
+        design="§6 C12"),
+    "C13": dict(
+        technique="Lean 4 proof (line grammar characterisation, print/parse identity, accessor and rule tables) + differential correspondence + grammar oracle",
+        text=("77 theorems over the header model: every line is kept or diagnosed with exactly one error of the right category and 1-based index, first duplicate wins, printing a parsed header and parsing it again is the identity, "
+              "accessors and header-level rules are decision tables; constants tied to the generated ones by rfl. The implementation is compared with the model and with a directly written grammar; derived-header independence is checked by mutate-and-observe."),
+        note="deepcopy aliasing is implementation-side only",
+        design="§6 C13"),
+    "C16": dict(
+        technique="Lean 4 total model with every raising primitive modelled + differential correspondence on adversarial files + exception-kind oracle",
+        text=("The reader model is total by construction and models every exception the code can raise; it is compared with MafReader on adversarial files in 3 modes, and the oracle checks that only the format exception (Strict) "
+              "or the ordering error (declared sortable order) escape and that one record is yielded per line after the column line. Lean theorems on counts/kinds land in Props/C16."),
+        note="lone surrogates are outside the model",
+        design="§6 C16"),
+    "C17": dict(
+        technique="Lean 4 model with ghost origins + compositional error-list oracle + differential correspondence",
+        text=("Errors in the model carry the physical index of the line they are about; the implementation's error list of a Silent read is compared with a compositional specification (each line diagnosed alone, numbered by position) "
+              "for defects injected at every kind of position. Lean theorems (Props/C17) state line = origin."),
+        note="HEADER_MISSING_COLUMN_NAMES refers to the line after the header block",
+        design="§6 C17"),
 }
 
 PENDING_REASON = "check not built yet in this round (planned, see DESIGN.md §6); not claimed until its check exists and passes on the unchanged tree"
